@@ -395,6 +395,14 @@ class Gen:
                 self.lookup_ok(fidx, c)
                 taken |= {m_snake for m_snake in flat_member_snakes(c)}
                 self.features.add("extension" + ("" if c.file == fidx else "-foreign"))
+                import random as _random
+                if c.file != fidx and c.name.pascal not in taken_types and \
+                        _random.Random("like-base:" + nm.xml + c.name.xml).random() < self.cfg.get("p_derived_named_like_base", 0.25):
+                    # order:Address extends common:Address — same local name, two namespaces, two structs
+                    taken_types.discard(nm.pascal)
+                    nm = Name(c.name.words, c.name.style, c.name.literal)
+                    taken_types.add(nm.pascal)
+                    self.features.add("derived-type-named-like-its-foreign-base")
         content = self.make_content(fidx, taken)
         if base is not None and "extension-attributes" in self.q:
             content.attrs = []
